@@ -15,12 +15,17 @@
              then (after an emitted batch) `post` messages
      ops     client operations "t" | "i" | "c" | "x"
 
-   Design switches (TRUE = intended; FALSE reproduces the code as found):
-     FixLogsBeforeError    messages logged by a step / a stream method body that then raises are written before the error
-     FixHttpExchangeTail   HttpStreamSession.exchange delivers the messages that follow the data batch in the response *)
+   Designs explored side by side (variable `design`, chosen in Init from the constant set Designs):
+     "intended"  the design the clauses are checked on
+     "found"     the code as found: (E) messages logged by a step / a stream method body that then raises are NOT written
+                 before the error (the collector / the sink is never flushed on the exception path); (T)
+                 HttpStreamSession.exchange discards whatever follows the data batch in the response
+     "onlyE" / "onlyT"   one of the two repaired
+   The clauses are invariants of the intended design; the other designs only contribute their histories, so that a real
+   execution is compared (for drift, never for a verdict) with every design the code may currently implement.       *)
 EXTENDS LogOrderClauses, TLC
 
-CONSTANTS MaxSteps, Pres, FixLogsBeforeError, FixHttpExchangeTail
+CONSTANTS MaxSteps, Pres, Designs
 
 \* ------------------------------------------------------------------------------------------ the space of calls
 St(p, a, q) == [pre |-> p, act |-> a, post |-> q]
@@ -43,16 +48,19 @@ Scripts ==
   \cup {[tr |-> tp, kind |-> kd, hdr |-> hd, n0 |-> n, iraise |-> TRUE, steps |-> <<>>, ops |-> IF kd = "prod" THEN <<"i">> ELSE <<"t", "c">>] :
            tp \in {"pipe", "http"}, kd \in {"prod", "exch"}, hd \in BOOLEAN, n \in {0, 1, 2}}
 
-VARIABLES script, c2s, s2c, srv, cli, em, rv
-vars == <<script, c2s, s2c, srv, cli, em, rv>>
+VARIABLES script, design, c2s, s2c, srv, cli, em, rv
+vars == <<script, design, c2s, s2c, srv, cli, em, rv>>
 
 Init == /\ script \in Scripts
+        /\ design \in Designs
         /\ c2s = <<>> /\ s2c = <<>>
         /\ srv = [pc |-> "idle", k |-> 0, nl |-> 0, nd |-> 0]
         /\ cli = [pc |-> "start", op |-> 0, cur |-> "-", closed |-> FALSE, ended |-> FALSE, pend |-> <<>>, tok |-> FALSE,
                   fin |-> FALSE, await |-> FALSE, cancelled |-> FALSE]
         /\ em = <<>> /\ rv = <<>>
 
+FixLogsBeforeError == design \in {"intended", "onlyE"}
+FixHttpExchangeTail == design \in {"intended", "onlyT"}
 Http == script.tr = "http"
 Prod == script.kind = "prod"
 Unary == script.kind = "unary"
@@ -109,7 +117,7 @@ SInit ==
           ELSE /\ em' = em \o LogEvs(0, n0)
                /\ s2c' = s2c \o pre \o (IF Http THEN <<[t |-> "K"]>> ELSE <<>>)
                /\ srv' = [srv EXCEPT !.pc = "loop", !.nl = n0]
-  /\ UNCHANGED <<script, cli, rv>>
+  /\ UNCHANGED <<script, design, cli, rv>>
 SInput ==
   /\ srv.pc = "loop" /\ c2s # <<>> /\ Head(c2s).t = "in"
   /\ c2s' = Tail(c2s)
@@ -117,17 +125,17 @@ SInput ==
      /\ em' = em \o TurnEm(st, srv.nl, srv.nd)
      /\ s2c' = s2c \o TurnWire(st, srv.nl, srv.nd)
      /\ srv' = AfterTurn(st)
-  /\ UNCHANGED <<script, cli, rv>>
+  /\ UNCHANGED <<script, design, cli, rv>>
 SEnd ==
   /\ srv.pc = "loop" /\ c2s # <<>> /\ Head(c2s).t \in {"cx", "ie"}
   /\ c2s' = Tail(c2s)
   /\ s2c' = Append(s2c, [t |-> "Z"])
   /\ srv' = [srv EXCEPT !.pc = "done"]
-  /\ UNCHANGED <<script, cli, em, rv>>
+  /\ UNCHANGED <<script, design, cli, em, rv>>
 SDrain ==
   /\ srv.pc = "done" /\ c2s # <<>>
   /\ c2s' = Tail(c2s)
-  /\ UNCHANGED <<script, s2c, srv, cli, em, rv>>
+  /\ UNCHANGED <<script, design, s2c, srv, cli, em, rv>>
 Server == SInit \/ SInput \/ SEnd \/ SDrain
 
 \* ========================================================================================== client
@@ -149,14 +157,14 @@ CCall ==
   /\ cli.pc = "start"
   /\ c2s' = Append(c2s, [t |-> "req"])
   /\ cli' = [cli EXCEPT !.pc = "rd_init"]
-  /\ UNCHANGED <<script, s2c, srv, em, rv>>
+  /\ UNCHANGED <<script, design, s2c, srv, em, rv>>
 \* unary (both transports): one complete response: messages, then the result or the error
 CUnary ==
   /\ Unary /\ cli.pc = "rd_init" /\ s2c # <<>>
   /\ s2c' = <<>>
   /\ rv' = rv \o Deliver(s2c) \o <<Rv(IF Has(s2c, "E") THEN "E" ELSE "R", 0)>>
   /\ cli' = [cli EXCEPT !.pc = "nosession", !.ended = TRUE]
-  /\ UNCHANGED <<script, c2s, srv, em>>
+  /\ UNCHANGED <<script, design, c2s, srv, em>>
 \* pipe stream call: returns after the header stream (messages in it are delivered first); an error stream in its
 \* place fails the call
 CSessionPipe ==
@@ -171,7 +179,7 @@ CSessionPipe ==
                   /\ s2c' = <<>>
                   /\ cli' = [cli EXCEPT !.pc = "nosession", !.ended = TRUE]
      ELSE UNCHANGED <<s2c, rv>> /\ cli' = [cli EXCEPT !.pc = "ready"]
-  /\ UNCHANGED <<script, c2s, srv, em>>
+  /\ UNCHANGED <<script, design, c2s, srv, em>>
 \* http stream call: the whole /init response is read; messages are delivered as they are met, batches are kept
 CSessionHttp ==
   /\ ~Unary /\ Http /\ cli.pc = "rd_init" /\ c2s = <<>> /\ srv.pc # "idle"
@@ -181,16 +189,16 @@ CSessionHttp ==
           /\ cli' = [cli EXCEPT !.pc = "nosession", !.ended = TRUE]
      ELSE /\ rv' = rv \o Deliver(s2c)
           /\ cli' = [cli EXCEPT !.pc = "ready", !.pend = DataOf(s2c), !.tok = Has(s2c, "K"), !.fin = ~Has(s2c, "K")]
-  /\ UNCHANGED <<script, c2s, srv, em>>
+  /\ UNCHANGED <<script, design, c2s, srv, em>>
 
 CSkip ==
   /\ cli.pc = "ready" /\ NextOp \in {"t", "i"} /\ cli.ended
   /\ cli' = Done(cli)
-  /\ UNCHANGED <<script, c2s, s2c, srv, em, rv>>
+  /\ UNCHANGED <<script, design, c2s, s2c, srv, em, rv>>
 COpStart ==
   /\ cli.pc = "ready" /\ NextOp \in {"t", "i"} /\ ~cli.ended
   /\ cli' = [cli EXCEPT !.pc = "tick", !.cur = NextOp]
-  /\ UNCHANGED <<script, c2s, s2c, srv, em, rv>>
+  /\ UNCHANGED <<script, design, c2s, s2c, srv, em, rv>>
 GotData(c) == IF c.cur = "t" THEN Done(c) ELSE [c EXCEPT !.await = FALSE]
 CTickPipe ==
   /\ ~Http /\ cli.pc = "tick"
@@ -205,7 +213,7 @@ CTickPipe ==
                                /\ cli' = [Done(cli) EXCEPT !.closed = TRUE, !.ended = TRUE]
                [] x.t = "E" -> /\ See("E", 0) /\ c2s' = Append(c2s, [t |-> "ie"])
                                /\ cli' = [cli EXCEPT !.pc = "drain", !.cur = "e", !.closed = TRUE, !.ended = TRUE]
-  /\ UNCHANGED <<script, srv, em>>
+  /\ UNCHANGED <<script, design, srv, em>>
 CTickHttpProd ==
   /\ Http /\ Prod /\ cli.pc = "tick"
   /\ IF cli.pend # <<>>
@@ -223,7 +231,7 @@ CTickHttpProd ==
                [] x.t = "K" -> cli' = [cli EXCEPT !.await = FALSE] /\ UNCHANGED rv
                [] x.t = "Z" -> See("S", 0) /\ cli' = [Done(cli) EXCEPT !.ended = TRUE]
                [] x.t = "E" -> See("E", 0) /\ cli' = [Done(cli) EXCEPT !.ended = TRUE]
-  /\ UNCHANGED <<script, srv, em>>
+  /\ UNCHANGED <<script, design, srv, em>>
 \* http exchange: one request; the response is read up to its data batch, then to its end
 CTickHttpExch ==
   /\ Http /\ ~Prod /\ cli.pc = "tick"
@@ -237,21 +245,21 @@ CTickHttpExch ==
                       tail == SubSeq(s2c, Len(head) + 2, Len(s2c)) IN
                   /\ rv' = rv \o Deliver(head) \o (IF FixHttpExchangeTail THEN Deliver(tail) ELSE <<>>) \o <<Rv("D", s2c[Len(head) + 1].n)>>
                   /\ cli' = Done(cli)
-  /\ UNCHANGED <<script, srv, em>>
+  /\ UNCHANGED <<script, design, srv, em>>
 
 CClose ==
   /\ cli.pc = "ready" /\ NextOp = "c"
   /\ IF Http \/ cli.closed
      THEN cli' = Done(cli) /\ UNCHANGED c2s
      ELSE c2s' = Append(c2s, [t |-> "ie"]) /\ cli' = [cli EXCEPT !.pc = "drain", !.cur = "c", !.closed = TRUE]
-  /\ UNCHANGED <<script, s2c, srv, em, rv>>
+  /\ UNCHANGED <<script, design, s2c, srv, em, rv>>
 CCancel ==
   /\ cli.pc = "ready" /\ NextOp = "x"
   /\ IF Http \/ cli.closed
      THEN cli' = [Done(cli) EXCEPT !.cancelled = TRUE, !.ended = TRUE] /\ UNCHANGED c2s
      ELSE /\ c2s' = c2s \o <<[t |-> "cx"], [t |-> "ie"]>>
           /\ cli' = [cli EXCEPT !.pc = "drain", !.cur = "x", !.closed = TRUE, !.cancelled = TRUE, !.ended = TRUE]
-  /\ UNCHANGED <<script, s2c, srv, em, rv>>
+  /\ UNCHANGED <<script, design, s2c, srv, em, rv>>
 \* pipe: close / cancel / the close after an error read the output to its end; messages met on the way are delivered
 CDrain ==
   /\ cli.pc = "drain" /\ s2c # <<>>
@@ -260,7 +268,7 @@ CDrain ==
      CASE x.t = "L" -> See("L", x.n) /\ UNCHANGED cli
        [] x.t = "Z" -> cli' = Done(cli) /\ UNCHANGED rv
        [] OTHER     -> UNCHANGED <<cli, rv>>
-  /\ UNCHANGED <<script, c2s, srv, em>>
+  /\ UNCHANGED <<script, design, c2s, srv, em>>
 
 Client == CCall \/ CUnary \/ CSessionPipe \/ CSessionHttp \/ CSkip \/ COpStart \/ CTickPipe \/ CTickHttpProd
           \/ CTickHttpExch \/ CClose \/ CCancel \/ CDrain
@@ -270,14 +278,14 @@ Spec == Init /\ [][Next]_vars
 \* ========================================================================================== properties
 ClientDone == (cli.pc = "ready" /\ cli.op = NOps) \/ cli.pc = "nosession"
 Finished == ClientDone /\ ~ENABLED Server
-Inv_ExactlyOnceNoDuplicate == ExactlyOnceNoDuplicate(em, rv)
-Inv_OnlyEmitted == OnlyEmitted(em, rv)
-Inv_InEmissionOrder == InEmissionOrder(em, rv)
-Inv_DeliveredBeforeOutcome == DeliveredBeforeOutcome(em, rv)
-Inv_ContentPreserved == ContentPreserved(em, rv)
+Inv_ExactlyOnceNoDuplicate == design = "intended" => ExactlyOnceNoDuplicate(em, rv)
+Inv_OnlyEmitted == design = "intended" => OnlyEmitted(em, rv)
+Inv_InEmissionOrder == design = "intended" => InEmissionOrder(em, rv)
+Inv_DeliveredBeforeOutcome == design = "intended" => DeliveredBeforeOutcome(em, rv)
+Inv_ContentPreserved == design = "intended" => ContentPreserved(em, rv)
 NoWedge == (~ENABLED Next) => ClientDone
 \* model sanity: a call that was read to its end (unary, a finished iteration, a pipe session that was closed) lost nothing
 ReadToEnd == Unary \/ (~Http /\ cli.closed) \/ (Http /\ Prod /\ \E i \in 1..Len(rv) : rv[i].e = "S")
-NothingLost == (Finished /\ ReadToEnd) =>
+NothingLost == (design = "intended" /\ Finished /\ ReadToEnd) =>
                   \A p \in 1..Len(em) : em[p].e = "l" => \E j \in 1..Len(rv) : rv[j].e = "L" /\ rv[j].n = em[p].n
 ==========================================================================================
